@@ -253,6 +253,25 @@ Theorem elementwise_mul_eq_reference_partial :
     fst v <> 0 -> snd v <= 62 -> same_value v (tfl_mul_params p in1 in2 out) 0.
 Proof. exact ew_mul_eq_reference_lemma. Qed.
 
+(* ---- packed scale records of CONV_2D / DEPTHWISE_CONV_2D / FULLY_CONNECTED (weight_compressor) ---- *)
+(* PARTIAL in the same sense as the elementwise theorems (hand model of _prepare_scale_and_bias's float
+   expression, tied by reading the records back from compiled networks: tools/checks/c09.py section G).
+   pprod = 53: int8/int16 convolutions (double product); pprod = 24: uint8 and FULLY_CONNECTED (float product).
+   Evaluated with the rule of the source operator, the packed pair is the reference's QuantizeMultiplier pair ... *)
+Theorem conv_packed_eq_reference_partial :
+  forall p ifm w ofm, 1 <= p -> 0 < dm ifm -> 0 < dm w -> 0 < dm ofm ->
+    let v := conv_packed_scale p false ifm w ofm in
+    fst v <> 0 -> snd v <= 62 -> same_value v (tfl_conv_params p ifm w ofm) 0.
+Proof. exact conv_packed_eq_reference_lemma. Qed.
+
+(* ... and for int16 with an int64 bias the run-time reduction the reference kernel applies to it *)
+Theorem conv_packed_reduced_eq_reference_partial :
+  forall p ifm w ofm, 1 <= p -> 0 < dm ifm -> 0 < dm w -> 0 < dm ofm ->
+    let v := conv_packed_scale p false ifm w ofm in
+    fst v <> 0 -> snd v <= 62 ->
+    conv_packed_scale p true ifm w ofm = tfl_reduce (tfl_conv_params p ifm w ofm).
+Proof. exact conv_packed_reduced_eq_reference_lemma. Qed.
+
 Print Assumptions quantise_scale_accurate.
 Print Assumptions quantise_scale_accurate_Q.
 Print Assumptions quantise_scale_degrades.
@@ -269,3 +288,5 @@ Print Assumptions pooling_scale_int16_refuted.
 Print Assumptions pooling_scale_negative.
 Print Assumptions elementwise_add_sub_eq_reference_partial.
 Print Assumptions elementwise_mul_eq_reference_partial.
+Print Assumptions conv_packed_eq_reference_partial.
+Print Assumptions conv_packed_reduced_eq_reference_partial.
